@@ -36,6 +36,9 @@ CLAUSES = ['closed-with-live-requests', 'new-request-on-replaced-connection', 'o
 BASE = dict(prop='C13', clauses=CLAUSES, proto=4, max_in_flight=6, orphaned_threshold=2, n_req=5, max_fail=1)
 R = ('req',)
 TO01 = [('timeout', 0), ('timeout', 1)]
+TO12 = [('timeout', 1), ('timeout', 2)]
+RETRY0 = ('resp-retry', 0)      # q0 answered with an error that the retry policy retries: the retry is an executor task
+T = ('task', 0, 'ok')
 
 
 def e_configs(ctx):
@@ -45,6 +48,14 @@ def e_configs(ctx):
         ('overloaded-1-live', dict(BASE, prefix=[R, R, R] + TO01, n_req=5), 6),
         ('overloaded-2-live', dict(BASE, prefix=[R, R, R, R] + TO01, n_req=6), 5),
         ('replacement-queued-2-live', dict(BASE, prefix=[R, R, R] + TO01 + [R], n_req=5), 5),
+        # one answer may be an error that is retried (the retry waits on the executor; the client timer keeps running)
+        ('fresh-with-retry', dict(BASE, max_retry=1, n_req=3), 7),
+        # q0's response has been processed, its retry is queued, its timer is live; q1 and q2 were given up
+        # (threshold reached), q3 and q4 are live
+        ('retry-queued-overloaded-2-live', dict(BASE, prefix=[R, R, R, R, R, RETRY0] + TO12, max_retry=1, n_req=6), 6),
+        # the same after q0's timer fired late (q0 is no longer on the wire) and the retry task found nothing to do
+        ('late-timeout-overloaded-2-live', dict(BASE, prefix=[R, RETRY0, ('timeout', 0), T, R, R, R, R] + TO12, max_retry=1,
+                                                n_req=7), 5),
     ]
     if ctx.thorough:
         q = [(n, dict(p, task_window=2, max_fail=2), d + (3 if '2-live' in n else 2)) for n, p, d in q]
@@ -63,6 +74,13 @@ def s_configs(ctx):
         ('replace-vs-orphan', dict(hc, stage=[R, R, R] + TO01 + [R], orphan_tags=[2], threads=['worker', 'reactor']), b),
         # the replacement is refused once and retried
         ('replace-refused-once', dict(hc, stage=[R, R, R] + TO01 + [R], max_fail=1, threads=['worker', 'reactor']), b),
+        # q0's client-side timer fires on its own thread while the reactor processes the response to q0; afterwards
+        # (single-threaded) q1 and q2 are given up, q5 is issued, the replacement runs, and q3, q4, q5 are answered one by one
+        ('timer-vs-response', dict(hc, stage=[R, R, R, R, R], threads=['reactor', 'timer'], answer_tags=[0], timer_tags=[0],
+                                   epilogue=TO12 + [R, T]), b),
+        # the same race for q2 on a connection that is being replaced (q0, q1 given up; q3, q4, q5 live)
+        ('timer-vs-response-vs-replace', dict(hc, stage=[R, R, R, R, R] + TO01 + [R], threads=['worker', 'reactor', 'timer'],
+                                              answer_tags=[2], timer_tags=[2]), b),
     ]
 
 
